@@ -42,7 +42,7 @@ void World::opCounts(const Step &s)
         return e.forest >= 0 && forests[e.forest].alive;
     });
     if (ca.empty()) { note(OC_SKIP); return; }
-    EdgeSlot &A = *edges[ca[s.a[0] % ca.size()]];
+    EdgeSlot &A = *edges[pick(ca, s.a[0])];
     ForRT &F = forests[A.forest];
     forest* f = F.f;
     std::set<node_handle> seen;
@@ -91,7 +91,7 @@ void World::opCardinality(const Step &s)
         return k == FK_MTB || k == FK_MTI || k == FK_EVP || k == FK_IDX || k == FK_MTR;
     });
     if (ca.empty()) { note(OC_SKIP); return; }
-    EdgeSlot &A = *edges[ca[s.a[0] % ca.size()]];
+    EdgeSlot &A = *edges[pick(ca, s.a[0])];
     ForRT &F = forests[A.forest];
     const long expect = A.tab.countNonDefault(defaultOf(F.kind()));
     desc << "CARDINALITY(" << en(A) << ") expect " << expect;
@@ -232,7 +232,7 @@ void World::opIterate(const Step &s)
         return forests[e.forest].kind() != FK_EVT;
     });
     if (ca.empty()) { note(OC_SKIP); return; }
-    EdgeSlot &A = *edges[ca[s.a[0] % ca.size()]];
+    EdgeSlot &A = *edges[pick(ca, s.a[0])];
     ForRT &F = forests[A.forest];
     const Dom &D = doms[F.spec.dom].m;
     Rng R(s.seed);
@@ -295,7 +295,7 @@ void World::opIterOpen(const Step &s)
         return forests[e.forest].kind() != FK_EVT;
     });
     if (ca.empty()) { note(OC_SKIP); return; }
-    EdgeSlot &A = *edges[ca[s.a[0] % ca.size()]];
+    EdgeSlot &A = *edges[pick(ca, s.a[0])];
     ForRT &F = forests[A.forest];
     const Dom &D = doms[F.spec.dom].m;
     Rng R(s.seed);
@@ -398,7 +398,7 @@ void World::opUnary(const Step &s)
         return k == FK_MTI || k == FK_MTR || k == FK_EVP;
     });
     if (ca.empty()) { note(OC_SKIP); return; }
-    EdgeSlot &A = *edges[ca[s.a[1] % ca.size()]];
+    EdgeSlot &A = *edges[pick(ca, s.a[1])];
     ForRT &FA = forests[A.forest];
     int ri;
     if (which == 3) {
@@ -464,7 +464,7 @@ void World::opRange(const Step &s)
         return k == FK_MTI || k == FK_MTR;
     });
     if (ca.empty()) { note(OC_SKIP); return; }
-    EdgeSlot &A = *edges[ca[s.a[1] % ca.size()]];
+    EdgeSlot &A = *edges[pick(ca, s.a[1])];
     ForRT &F = forests[A.forest];
     const bool mx = (s.a[0] & 1);
     desc << (mx ? "MAX_RANGE(" : "MIN_RANGE(") << en(A) << ")";
@@ -515,12 +515,12 @@ void World::opCross(const Step &s)
     };
     std::vector<size_t> ca = edgesWhere(isSet);
     if (ca.empty()) { note(OC_SKIP); return; }
-    EdgeSlot &A = *edges[ca[s.a[0] % ca.size()]];
+    EdgeSlot &A = *edges[pick(ca, s.a[0])];
     ForRT &FA = forests[A.forest];
     std::vector<size_t> cb = edgesWhere([&](const EdgeSlot &e) {
         return isSet(e) && forests[e.forest].spec.dom == FA.spec.dom;
     });
-    EdgeSlot &B = *edges[cb[s.a[1] % cb.size()]];
+    EdgeSlot &B = *edges[pick(cb, s.a[1])];
     int ri = pickForest(s.a[2], [&](const ForRT &F) {
         return F.spec.dom == FA.spec.dom && F.spec.rel && F.kind() == FK_MTB;
     });
@@ -564,14 +564,14 @@ void World::opImage(const Step &s)
         return k == FK_MTB || k == FK_MTI || k == FK_EVP;
     });
     if (ca.empty()) { note(OC_SKIP); return; }
-    EdgeSlot &A = *edges[ca[s.a[1] % ca.size()]];
+    EdgeSlot &A = *edges[pick(ca, s.a[1])];
     ForRT &FA = forests[A.forest];
     std::vector<size_t> cr = edgesWhere([&](const EdgeSlot &e) {
         return e.forest >= 0 && forests[e.forest].alive && forests[e.forest].spec.rel
             && forests[e.forest].kind() == FK_MTB && forests[e.forest].spec.dom == FA.spec.dom;
     });
     if (cr.empty()) { note(OC_SKIP); return; }
-    EdgeSlot &Rl = *edges[cr[s.a[2] % cr.size()]];
+    EdgeSlot &Rl = *edges[pick(cr, s.a[2])];
     int ri = (s.a[4] & 1) ? A.forest : pickForest(s.a[3], [&](const ForRT &F) {
         return F.spec.dom == FA.spec.dom && !F.spec.rel && F.kind() == FA.kind();
     });
@@ -599,7 +599,8 @@ void World::opImage(const Step &s)
                 if (k == FK_MTB) o = Val::b(true);
                 else {
                     long cand = ax.i + 1;
-                    if (o.inf || o.i < 0 || cand < o.i) o = Val::n(cand);
+                    if (k == FK_EVP) { if (o.inf || cand < o.i) o = Val::n(cand); }
+                    else if (o.i < 0 || cand < o.i) o = Val::n(cand);
                 }
             }
         }
@@ -660,14 +661,14 @@ void World::opVMMult(const Step &s)
         return k == FK_MTI || k == FK_MTR;
     });
     if (ca.empty()) { note(OC_SKIP); return; }
-    EdgeSlot &A = *edges[ca[s.a[1] % ca.size()]];
+    EdgeSlot &A = *edges[pick(ca, s.a[1])];
     ForRT &FA = forests[A.forest];
     std::vector<size_t> cr = edgesWhere([&](const EdgeSlot &e) {
         return e.forest >= 0 && forests[e.forest].alive && forests[e.forest].spec.rel
             && forests[e.forest].kind() == FA.kind() && forests[e.forest].spec.dom == FA.spec.dom;
     });
     if (cr.empty()) { note(OC_SKIP); return; }
-    EdgeSlot &M = *edges[cr[s.a[2] % cr.size()]];
+    EdgeSlot &M = *edges[pick(cr, s.a[2])];
     int ri = (s.a[4] & 1) ? A.forest : pickForest(s.a[3], [&](const ForRT &F) {
         return F.spec.dom == FA.spec.dom && !F.spec.rel && F.kind() == FA.kind();
     });
@@ -684,7 +685,7 @@ void World::opVMMult(const Step &s)
             for (long x = 0; x < D.N; x++) {
                 const Val &a = A.tab.v[size_t(x)];
                 const Val &m = vm ? M.tab.v[size_t(x * D.N + y)] : M.tab.v[size_t(y * D.N + x)];
-                if (real) { acc += a.d * m.d; inex = inex || a.inexact || m.inexact; }
+                if (real) { acc += a.d * m.d; inex = inex || a.inexact || m.inexact; if (a.inexact || m.inexact) res->oracle = false; }
                 else iacc += a.i * m.i;
             }
             if (real) {
@@ -782,7 +783,7 @@ void World::opReach(const Step &s)
         return k == FK_MTB || k == FK_EVP;
     });
     if (ca.empty()) { note(OC_SKIP); return; }
-    EdgeSlot &A = *edges[ca[s.a[2] % ca.size()]];
+    EdgeSlot &A = *edges[pick(ca, s.a[2])];
     ForRT &FA = forests[A.forest];
     const FKind ak = FA.kind();
     std::vector<size_t> cr = edgesWhere([&](const EdgeSlot &e) {
@@ -790,7 +791,7 @@ void World::opReach(const Step &s)
             && forests[e.forest].kind() == FK_MTB && forests[e.forest].spec.dom == FA.spec.dom && e.oracle;
     });
     if (cr.empty()) { note(OC_SKIP); return; }
-    EdgeSlot &Rl = *edges[cr[s.a[3] % cr.size()]];
+    EdgeSlot &Rl = *edges[pick(cr, s.a[3])];
     int ri = ((s.a[5] & 1) && !allowKnown) ? A.forest : pickForest(s.a[4], [&](const ForRT &F) {
         if (ak == FK_MTI && F.spec.red != 0) return false;
         return F.spec.dom == FA.spec.dom && !F.spec.rel && F.kind() == ak;
@@ -879,11 +880,14 @@ void World::opSatPart(const Step &s)
 {
     cur_family = "satpart";
     std::vector<size_t> ca = edgesWhere([&](const EdgeSlot &e) {
+        // KF-C20-1: in a fully-reduced set forest events at a level skipped
+        // by both the set and the firing event are not fired (probe plans only)
+        if (e.forest >= 0 && forests[e.forest].spec.red == 0 && s.a[5] != 999) return false;
         return e.forest >= 0 && forests[e.forest].alive && !forests[e.forest].spec.rel
             && forests[e.forest].kind() == FK_MTB && e.oracle;
     });
     if (ca.empty()) { note(OC_SKIP); return; }
-    EdgeSlot &A = *edges[ca[s.a[1] % ca.size()]];
+    EdgeSlot &A = *edges[pick(ca, s.a[1])];
     ForRT &FA = forests[A.forest];
     int rfi = pickForest(s.a[2], [&](const ForRT &F) {
         return F.spec.dom == FA.spec.dom && F.spec.rel && F.kind() == FK_MTB
@@ -905,7 +909,6 @@ void World::opSatPart(const Step &s)
     // events: each touches a random subset of variables (others unchanged)
     Table U = Table::constant(D, true, Val::b(false));
     std::vector<dd_edge> evs;
-    std::ostringstream desc;
     try {
         for (unsigned e = 0; e < nev; e++) {
             const unsigned nm = 1 + unsigned(R.below(3));
@@ -928,6 +931,14 @@ void World::opSatPart(const Step &s)
                 symToMinterm(FX, sm, mc.unused());
                 mc.unused().setValue(rangeval(true));
                 mc.pushUnused();
+                desc << (j ? " + " : "; event ") << "(";
+                for (int v = 1; v <= D.nvars(); v++) {
+                    if (v > 1) desc << ",";
+                    if (sm.from[v] < 0) desc << "*"; else desc << sm.from[v];
+                    desc << ">";
+                    if (sm.to[v] == -2) desc << "="; else if (sm.to[v] < 0) desc << "*"; else desc << sm.to[v];
+                }
+                desc << ")";
             }
             dd_edge ev(FX.f);
             mc.buildFunctionMax(rangeval(false), ev);
@@ -1018,8 +1029,10 @@ void World::opReorder(const Step &s)
     cur_family = "reorder";
     int fi = pickForest(s.a[0], [&](const ForRT &F) {
         FKind k = F.kind();
-        // KF-C13-1: reordering an identity-reduced relation forest (probe plans only)
-        if (F.spec.rel && F.spec.red == 2 && s.a[5] != 999) return false;
+        // KF-C16-2: nodes leaked by an operation that raised an error are
+        // relabelled by a later reordering into nodes that break a
+        // quasi-reduced forest's rule (probe plans only)
+        if (F.errored && F.spec.red == 1 && s.a[5] != 999) return false;
         if (F.spec.rel) return k == FK_MTB || k == FK_MTI || k == FK_MTR;
         return k == FK_MTB || k == FK_MTI || k == FK_MTR || k == FK_EVP;
     });
@@ -1102,7 +1115,7 @@ void World::opIndexSet(const Step &s)
             && forests[e.forest].kind() == FK_MTB && e.oracle;
     });
     if (ca.empty()) { note(OC_SKIP); return; }
-    EdgeSlot &A = *edges[ca[s.a[0] % ca.size()]];
+    EdgeSlot &A = *edges[pick(ca, s.a[0])];
     ForRT &FA = forests[A.forest];
     int ri = pickForest(s.a[1], [&](const ForRT &F) {
         return F.spec.dom == FA.spec.dom && !F.spec.rel && F.kind() == FK_IDX;
